@@ -3,7 +3,7 @@
     coqc is run from the directory that should receive pegmodel.ml.
     The [x_*] names are the driver's entry points (unique names, so that extraction never renames them). *)
 From Coq Require Import ExtrOcamlBasic List.
-From PegV Require Import Spec.WF Model.SkipCheck Model.Optimize Model.Front Model.EmitFacts Model.Emit Model.SEmit Model.Link Model.Cli Generated.CliFacts Model.SetImpl Spec.Syntax Spec.Peg Model.Machine Model.Runtime Model.Analyses Model.Gen.
+From PegV Require Import Spec.WF Model.SkipCheck Model.Optimize Model.Front Model.EmitFacts Model.Emit Model.SEmit Model.Premises Model.Link Model.Cli Generated.CliFacts Model.SetImpl Spec.Syntax Spec.Peg Model.Machine Model.Runtime Model.Analyses Model.Gen.
 Extraction Language OCaml.
 
 Definition x_set_run := SetImpl.run.
@@ -56,6 +56,9 @@ Definition x_semit_all (g : Syntax.grammar) (ptx : nat) (ast inline : bool) (und
   let asul := x_asu_table g in
   SEmit.semit_all g ptx ast inline (fun r => nth r asul false) (fun r => nth r undef false).
 Definition x_deep_table_b := SEmit.deep_table_b.
+(** the two syntactic premises under which that side condition is a theorem (Model/Premises.v, Proofs/CountInline.v) *)
+Definition x_alt2_b := Premises.grammar_alt2_b.
+Definition x_closed_names_b := Premises.closed_names_b.
 Definition x_good_grammar_b := WF.good_grammar_b.
 Definition x_swok_b (g : Syntax.grammar) (inline : bool) : bool :=
   SkipCheck.grammar_swok_b g (fun r => nth r (Analyses.inline_table inline g) false) (S (Analyses.gsize g) * S (length g)).
@@ -74,4 +77,4 @@ Extraction "pegmodel.ml"
   x_undefined x_unused x_duplicates x_leftrec x_reached x_closed_b x_cli_model x_cli_destination
   x_set_run x_set_has x_set_len x_set_elements x_set_intersects x_set_equal
   x_mk_opts x_run_history x_spec_parse x_first_furthest x_flat x_zero_state
-  x_inline_table x_asu_rule x_count_rules x_execute x_wf_auto x_good_grammar_b x_swok_b x_optimize x_fs_table x_opt_ok x_emit_all x_semit_all x_deep_table_b x_link x_elab x_sx_ok x_peg_rule_type.
+  x_inline_table x_asu_rule x_count_rules x_execute x_wf_auto x_good_grammar_b x_swok_b x_optimize x_fs_table x_opt_ok x_emit_all x_semit_all x_deep_table_b x_alt2_b x_closed_names_b x_link x_elab x_sx_ok x_peg_rule_type.
